@@ -423,6 +423,16 @@ def run_pure(desc, M):
             M.check(len(again) == 8 and list(again["a"]) == [1] * 8, "the same evidence dict can be used again after simulate()")
         else:
             from pgmpy.inference import VariableElimination
+            from pgmpy.factors.discrete import DiscreteFactor
+            # factor arithmetic with a CPD of the model as the RIGHT operand (scope listed in another order than the left one's): out-of-place
+            # operations must leave the model's CPD as it was
+            left = DiscreteFactor(["a", "c", "b"], [2, 3, 2], np.arange(12, dtype=float) + 1, state_names={"a": [0, 1], "c": ["x", "y", "z"], "b": ["lo", "hi"]})
+            cpd_c = m.get_cpds("c")
+            _ = left + cpd_c
+            _ = left * cpd_c
+            _ = left / cpd_c
+            _ = DiscreteFactor(["a"], [2], [1.0, 2.0], state_names={"a": [0, 1]}) + cpd_c
+            M.check(same_model(M, snap_model(m), before), "factor arithmetic with a model CPD as operand leaves the model unchanged")
             ve = VariableElimination(m)
             f1 = ve.query(["c"], evidence={"a": 1}, show_progress=False)
             f1.values[0] = 99.0
